@@ -36,8 +36,8 @@ HARNESSES = [
     },
 ]
 
-HOOK_COMMITS = []
-HOOKS_ADD_ONLY = True
+HOOK_COMMITS = ["bc22210"]
+HOOKS_ADD_ONLY = False  # the hook token is inserted inside three existing loop-header lines
 
 HARNESSES += [
     {
@@ -99,6 +99,15 @@ HARNESSES += [
     {"name": "redirect_destroy", "props": ["C05", "C14"], "src": "h_redirect.c",
      "contracts": ["public.h"], "enforce": "redirect_destroy", "defs": {"RD_destroy": None},
      "what": "redirect_destroy closes exactly what the library opened (PIPE/DISCARD/PATH), never a user handle, FILE or parent stream"},
+]
+
+
+HARNESSES += [
+    {"name": "setup_input", "props": ["C02", "C17", "C05", "C04", "C13", "C14"], "src": "h_setup_input.c",
+     "contracts": ["public.h"], "includes": ["reproc.c"], "enforce": "setup_input", "loop_contracts": True,
+     "replace": ["now"], "defs": {"VERIF_LOOP_CONTRACTS": None, "VERIF_MAX_BUF": "(1ul<<40)"},
+     "what": "setup_input with a loop contract (invariant: cursor == written, nothing slept; variant size - written): "
+             "any input size, any sequence of partial writes; pipe_nonblocking, pipe_write, pipe_destroy inlined"},
 ]
 
 
